@@ -1,7 +1,7 @@
 #!/bin/sh
 # usage: verify_seed.sh <id>  - confirm a seeded change from /tmp/seed_out/<id>: applies to HEAD, pinned tests still pass,
 # demo passes without and fails with the patch.  Uses a scratch worktree outside /repo and /verif; removes it afterwards.
-ID="$1"; SRC=/tmp/seed_out/$ID; WT=/tmp/wt_verify_$ID
+ID="$1"; SRC="${2:-/tmp/seed_out}/$ID"; WT=/tmp/wt_verify_$ID
 rm -rf "$WT"; git -C /repo worktree prune
 git -C /repo worktree add -q --detach "$WT" HEAD || exit 2
 ( cd "$WT" && timeout 60 /venv/bin/python "$SRC/demo.py" "$WT" >/tmp/vs_$ID.clean 2>&1 ); CLEAN=$?
